@@ -80,6 +80,24 @@ class C05:
             return None
         return ", ".join(q.split(":")[-1] for q in quals) or "?"
 
+    ALTERING_EXT = ("shapely.transform", "shapely.set_precision", "shapely.snap", "shapely.simplify", "shapely.ops.transform", "shapely.ops.snap",
+                    "shapely.affinity.", "shapely.segmentize", "shapely.remove_repeated_points", "shapely.make_valid", "shapely.buffer",
+                    "shapely.convex_hull", "shapely.envelope", "shapely.reverse")
+    ALTERING_METHODS = {"buffer", "simplify", "segmentize", "convex_hull", "envelope", "reverse", "normalize"}
+
+    def post_processing(self, t, g):
+        """name of the coordinate-altering shapely operation applied to `converter(geom)` in row value t, else None"""
+        def is_conv(x):
+            return x[0] == "call" and x[1][0] == "global" and x[2] == (g,) and not x[3]
+        if t[0] == "call" and t[1][0] == "ext" and any(t[1][1] == a or (a.endswith(".") and t[1][1].startswith(a)) for a in self.ALTERING_EXT) \
+                and t[2] and (is_conv(t[2][0]) or self.post_processing(t[2][0], g)):
+            return t[1][1]
+        if t[0] == "call" and t[1][0] == "attr" and t[1][2] in self.ALTERING_METHODS and (is_conv(t[1][1]) or self.post_processing(t[1][1], g)):
+            return "." + t[1][2] + "()"
+        if t[0] == "attr" and t[2] in self.ALTERING_METHODS and (is_conv(t[1]) or self.post_processing(t[1], g)):
+            return "." + t[2]
+        return None
+
     # ------------------------------------------------------------------ R05.1 + R05.2
     def check_conversion(self):
         ctx = self.ctx
@@ -106,6 +124,12 @@ class C05:
             r = rows[name][0]
             t = r.term
             if not (t[0] == "call" and t[1][0] == "global" and t[2] == (g,) and not t[3]):
+                post = self.post_processing(t, g)
+                if post:
+                    ctx.bad("R05.1", file, "geometry_to_shapely", f'"{name}" -> {show(t)[:50]}',
+                            f"the shape converted for {name} is post-processed by {post} before it is returned: its vertices are no longer "
+                            f"the coordinates of the geometry, so bounds, features, overlaps and rasters are computed from other numbers", r.lineno)
+                    continue
                 ctx.undec("R05.1", f"{file}:{r.lineno} geometry_to_shapely", f"row {name}: not a call f(geom): {show(t)[:60]}")
                 continue
             modname, fname = t[1][1].split(":")
@@ -479,6 +503,19 @@ class C05:
             ctx.bad("R05.5", file, "get_geometry_point", "unknown position", "an unknown position name is not rejected up front", s.node.lineno)
 
 
+def run_conversion_subset(ctx: Ctx):
+    """What every computation on geometries rests on (buffering, affinity, overlap predicates, rasterisation delegate to it):
+    geometry_to_shapely dispatches every type to its own converter, the converters hand the coordinates to shapely unchanged,
+    compute_bounds is the converted shape's bounds."""
+    with ctx.delegated("C05/"):
+        ctx.rule("R05.1", "dispatch tables exhaustive and type-aligned", 9)
+        ctx.rule("R05.2", "converters pass coordinates to shapely unchanged in (time, frequency) order", 9)
+        ctx.rule("R05.3", "compute_bounds == converted shape's bounds", 1)
+        c = C05(ctx)
+        c.check_conversion()
+        c.check_bounds()
+
+
 def run(ctx: Ctx):
     ctx.rule("R05.1", "dispatch tables exhaustive and type-aligned", 19)
     ctx.rule("R05.2", "converters pass coordinates to shapely unchanged in (time, frequency) order", 9)
@@ -492,4 +529,7 @@ def run(ctx: Ctx):
     c.check_bounds()
     c.check_features()
     c.check_positions()
+    # "agree with the coordinates": the coordinates a geometry holds are the ones it was built from (C03's validator rules)
+    from . import c03
+    c03.run_validation_subset(ctx)
     return EXPLANATION, ASSUMPTIONS
